@@ -10,6 +10,7 @@ pub mod c07;
 pub mod c08;
 pub mod c09;
 pub mod c10;
+pub mod c11;
 
 pub fn get(id: &str) -> Option<PropertyDef> {
     match id {
@@ -22,6 +23,7 @@ pub fn get(id: &str) -> Option<PropertyDef> {
         "C08" => Some(c08::def()),
         "C09" => Some(c09::def()),
         "C10" => Some(c10::def()),
+        "C11" => Some(c11::def()),
         _ => None,
     }
 }
